@@ -71,6 +71,13 @@ structure Req where
   glStat : GLStat := .missing
   /-- `uint32(time.Now().UTC().Unix())` -/
   now : Nat := 0
+  /-- the login rate limiter currently blocks the remote address
+  (`checkBasicAuth`, 07d17ef: Basic credentials are then not evaluated) -/
+  addrBlocked : Bool := false
+  /-- `globalContext.auth == nil`: the auth module is missing.  `optionalAuth`
+  then requires nothing.  Start-up never leaves it so (`startup`,
+  `C11_auth_never_nil_after_startup`). -/
+  authNil : Bool := false
   deriving DecidableEq, Repr
 
 /-- Where a wrapper redirects to (the first argument of `http.Redirect`). -/
@@ -162,12 +169,29 @@ def glCheckToken (r : Req) : Bool :=
 def glProcessCookie (r : Req) : Bool :=
   r.glMode && r.glCookie.isSome && glCheckToken r
 
+/-- `Auth.findUser` (auth.go:337): the verdict — the `ok` result — is "some
+configured user has EXACTLY this name and the password verifies against that
+user's hash".  `users` are (name, hash) pairs, `verifies hash pass` stands for
+`bcrypt.CompareHashAndPassword`. -/
+def findUserOK (users : List (Bytes × Bytes)) (verifies : Bytes → Bytes → Bool)
+    (name pass : Bytes) : Bool :=
+  users.any fun u => u.1 == name && verifies u.2 pass
+
+/-- The class of the `Authorization` header: `r.BasicAuth()` gives no
+credentials (no header, another scheme, bad base64, no colon) or a (name,
+password) pair, which `checkBasicAuth` judges by `findUser`'s verdict alone. -/
+def basicClass (users : List (Bytes × Bytes)) (verifies : Bytes → Bytes → Bool) :
+    Option (Bytes × Bytes) → Basic
+  | none => .none
+  | some (name, pass) => if findUserOK users verifies name pass then .right else .wrong
+
 /-- Session cookie or Basic credentials: a session cookie, when present, decides
 alone (Basic credentials are then not looked at); without a cookie, Basic
-credentials decide. -/
-def sessionOrBasic (c : Cookie) (b : Basic) : Bool :=
+credentials decide — unless the login rate limiter blocks the remote address:
+`checkBasicAuth` then answers "no" without evaluating them. -/
+def sessionOrBasic (c : Cookie) (b : Basic) (blocked : Bool := false) : Bool :=
   match c with
-  | .none => b == .right
+  | .none => b == .right && !blocked
   | .valid => true
   | .unknown => false
   | .expired => false
@@ -175,11 +199,51 @@ def sessionOrBasic (c : Cookie) (b : Basic) : Bool :=
 /-- `optionalAuthThird`'s notion of an authenticated request: the gl-inet token
 first, then session cookie / Basic credentials. -/
 def authenticated (r : Req) : Bool :=
-  glProcessCookie r || sessionOrBasic r.cookie r.basic
+  glProcessCookie r || sessionOrBasic r.cookie r.basic r.addrBlocked
 
-/-- `Auth.authRequired` (auth.go:396): always in gl-inet mode, else when a user
-is configured. -/
-def authRequired (r : Req) : Bool := r.glMode || r.usersExist
+/-- `globalContext.auth != nil && globalContext.auth.authRequired()`
+(authhttp.go:326, auth.go:396): with an auth module, always in gl-inet mode,
+else when a user is configured; without one, never. -/
+def authRequired (r : Req) : Bool := !r.authNil && (r.glMode || r.usersExist)
+
+/-! ## Start-up: where the auth module comes from (home.go run:671, initUsers:789, auth.go InitAuth:76) -/
+
+/-- State of `data/sessions.db` when the program starts. -/
+inductive StoreState
+  | missing | fine | empty | garbage | truncated | directory
+  deriving DecidableEq, Repr
+
+/-- `bbolt.Open` in `InitAuth`: a missing or empty file is initialised, a valid
+one opened; anything else is an error and `InitAuth` returns nil. -/
+def storeOpens : StoreState → Bool
+  | .missing => true
+  | .fine => true
+  | .empty => true
+  | .garbage => false
+  | .truncated => false
+  | .directory => false
+
+/-- `globalContext.auth, err = initUsers(); fatalOnError(err)`: `none` = the
+program stops; `some authNil` = it goes on with that auth module.  `initUsers`
+turns a nil module into an error, so the only way on is with a module. -/
+def startup (st : StoreState) : Option Bool :=
+  if storeOpens st then some false else none
+
+/-- Facts about the start-up code, extracted from the tree (rows of
+`Gen.authFacts`). -/
+inductive AuthFactKind
+  | assignCheckedFatal   -- `globalContext.auth, err = initUsers()` followed by `fatalOnError(err)`
+  | nilAfterWebClose     -- `globalContext.auth = nil` after `globalContext.web.close` (shutdown)
+  | returnNilWithError   -- `return nil, <an error that cannot be nil>` in initUsers
+  | returnCheckedValue   -- `return auth, …` after `if auth == nil { return … }`
+  | findUserVerdictOnly  -- `_, ok = findUser(…)` on the gate path, `ok` assigned nowhere else
+  | bad                  -- anything else: the module may be nil while requests are served
+  deriving DecidableEq, Repr
+
+structure AuthFact where
+  kind : AuthFactKind
+  site : Nat
+  deriving DecidableEq, Repr
 
 /-! ## The wrappers -/
 
@@ -226,12 +290,12 @@ credentials, "authentication is required", and in gl-inet mode the verdict on
 the token cookie: `some resp` = it answers `resp` and the wrapped handler is not
 called; `none` = it calls the wrapped handler. -/
 def authDecision (path : Bytes) (cookie : Cookie) (basic : Basic)
-    (authReq glMode glOK : Bool) : Option Resp :=
+    (authReq glMode glOK : Bool) (blocked : Bool := false) : Option Resp :=
   if path = pLoginHtml then
     if authReq && cookie == .valid then some (.redirect .dash) else none
   else if isPublicResource path then none
   else if authReq then
-    if glOK || sessionOrBasic cookie basic then none
+    if glOK || sessionOrBasic cookie basic blocked then none
     else if path = pRoot ∨ path = pIndex then some (.redirect (loginTarget glMode))
     else some .forbiddenAuth
   else none
